@@ -259,7 +259,9 @@ def _vine_replay_uncached(kind, vt, d):
                 rs = np.random.RandomState(seed)
                 A = rs.normal(size=(d, d))
                 X = pd.DataFrame(rs.multivariate_normal(np.zeros(d), A @ A.T + 0.3 * np.eye(d), 70), columns=vine.LABELS[:d])
-                X0 = pd.DataFrame(rs.normal(size=(40, 3)) @ rs.normal(size=(3, 3)) + 5, columns=['p', 'q', 'r'])
+                z0 = rs.normal(size=40)
+                z1 = z0 + 0.3 * rs.normal(size=40)
+                X0 = pd.DataFrame({'p': z0 + 5, 'q': z1 + 5, 'r': z1 + 0.3 * rs.normal(size=40) + 5})     # a chain p - q - r
                 u = rs.uniform(0.2, 0.8, size=(1, d))
                 outs = []
                 for fill, hist in ((np.nan, False), (7.0, False), (7.0, True)):
@@ -267,10 +269,15 @@ def _vine_replay_uncached(kind, vt, d):
                         v = VineCopula(vt)
                         if hist:
                             v.fit(X0, truncated=1)
+                            v.sample(2)
                         v.fit(X, truncated=d)
                         dd = v.to_dict()
                         v.set_random_state(11)
-                        outs.append((repr(dd), float(v.get_likelihood(u)), repr(np.round(v.sample(4).to_numpy(), 9).tolist())))
+                        try:
+                            rows = repr(np.round(v.sample(6).to_numpy(), 9).tolist())
+                        except Exception as e:          # noqa
+                            rows = 'sample raised %s' % type(e).__name__
+                        outs.append((repr(dd), float(v.get_likelihood(u)), rows))
                 if kind == 'undef' and repr(outs[0]) != repr(outs[1]):
                     a, b = outs[0][0], outs[1][0]
                     i = next((k for k in range(min(len(a), len(b))) if a[k] != b[k]), 0)
@@ -382,6 +389,8 @@ def build_vines(chk):
                         m2 = I.call_qual(VINE, [vt], {})
                         I.call_method(m2, 'fit', [X0, 1])
                         I.call_method(m2, 'get_likelihood', [Arr2([Lane(ir.var('uu_%d' % i), 1) for i in range(3)], 1)])
+                        State.rng = ir.var('Ghist', 'U')                 # ... and sampled, from an arbitrary generator state
+                        I.call_method(m2, '_sample_row', [])
                         m2 = vine.fit_vine(I, c, d, vt, truncated=d, model=m2)
                         c.out['dict2'] = I.call_method(m2, 'to_dict', [])
                         try:
